@@ -84,6 +84,12 @@ class C11(Case):
                     V = Q.declare_vars(sp, pools)
                     head = build_head_obj(sp["head"], V)
                     conds = [S.build(sp["cond"], V)] if sp.get("cond") else []
+                    if sp.get("forall"):
+                        # a universally quantified conjunct AFTER the other conditions (it may stop early on a failing value)
+                        from entity_query_language import for_all
+                        Vu = dict(V)
+                        Vu["u"] = let(S.Other, domain=pools["U"])
+                        conds.append(for_all(Vu["u"], S.build(sp["forall"], Vu)))
                     q = infer(entity(head, *conds))
             else:
                 with symbolic_mode():
@@ -123,6 +129,9 @@ class C11(Case):
         sigmas = list(Q.assignments(sp, pools))
         cond = sp.get("cond")
         sat = [Q.holds(alg, cond, Q.env_of(s, sp, pools), allobjs) if cond else alg.const(True) for s in sigmas]
+        if sp.get("forall"):
+            sat = [alg.and_(t, *[Q.holds(alg, sp["forall"], dict(Q.env_of(s, sp, pools), u=uo), allobjs) for uo in pools["U"]])
+                   for t, s in zip(sat, sigmas)]
         obs = []
         for tag, made in (("", data["made"]),) + ((("re-eval:", data["made2"]),) if "made2" in data else ()):
             obs.append((tag + "all_are_new_real_instances_of_the_head_class",
@@ -206,6 +215,12 @@ def shapes(tier, seed):
         for b in (J[3], SX[0], None):
             if not any(o[0] == "ra" for o in h.values()):
                 out.append(dict(EMPTY, head=h, cond=b))
+    # a universally quantified conjunct in the rule body
+    FA1 = dict(pools={"X": 3, "U": 2}, classes={"U": "Other"}, vars={"x": "X"}, select=[["v", "x"]])
+    for fc in (["cmp", "gt", ["a", "x", "a"], ["a", "u", "a"]], ["cmp", "le", ["a", "u", "b"], ["a", "x", "b"]]):
+        out.append(dict(FA1, head=heads1()[1], cond=["cmp", "gt", ["a", "x", "c"], ["lit", 0]], forall=fc))
+        out.append(dict(FA1, head=heads1()[0], cond=None, forall=fc))
+        out.append(dict(FA1, pools={"X": 3, "U": 3}, head=heads1()[1], cond=["cmp", "gt", ["a", "x", "c"], ["lit", 0]], forall=fc))
     core = S.core_leaves("x")
     bodies1 = core[:5] + [["and", core[0], core[1]], ["or", core[0], core[2]], ["not", core[1]], None,
                           ["over", "x", 0], ["pv", ["a", "x", "b"], 0], ["cmp", "gt", ["c", "x", 0], ["a", "x", "b"]]]
